@@ -51,6 +51,7 @@ type polEnv struct {
 	partBad bool         // an unsupported / empty partitioner was set by an event
 	addrs   map[int]bool // connect addresses in the policy's host list
 	fresh   map[int]bool
+	why     map[int]string // why a keyspace is not fresh: "ring" (ring recomputed since its last KeyspaceChanged) / "schema"
 	// scenario statistics
 	hadEntry     map[int]bool // the keyspace had an entry at some point
 	unreadRingEv int          // ring recomputations while a keyspace that had an entry is unreadable
@@ -93,7 +94,7 @@ func (e *polEnv) read(ks string) (*gocql.KeyspaceMetadata, error) {
 }
 
 func polReset(w []string) string {
-	e := &polEnv{schema: map[int]string{}, addrs: map[int]bool{}, fresh: map[int]bool{}, hadEntry: map[int]bool{}, part: "e"}
+	e := &polEnv{schema: map[int]string{}, addrs: map[int]bool{}, fresh: map[int]bool{}, why: map[int]string{}, hadEntry: map[int]bool{}, part: "e"}
 	fmt.Sscan(w[1], &e.sess)
 	for _, s := range w[2:] {
 		f := strings.Split(s, "/")
@@ -194,6 +195,9 @@ func (e *polEnv) dump() string {
 // recomputed: the event rebuilt the ring and the session keyspace's entry (bookkeeping for the classification)
 func (e *polEnv) recomputed() {
 	for k := range e.fresh {
+		if k != e.sess {
+			e.why[k] = "ring"
+		}
 		delete(e.fresh, k)
 	}
 	e.fresh[e.sess] = true
@@ -314,6 +318,7 @@ func polSchema(w []string) string {
 	}
 	e.schema[k] = w[2]
 	delete(e.fresh, k)
+	e.why[k] = "schema"
 	return "ok"
 }
 
@@ -485,11 +490,13 @@ func (g *polGen) queries(all bool) {
 			if r.Intn(3) == 0 {
 				g.do(fmt.Sprintf("xprepl %d %s", k, ts), "xprepl/fresh/"+who)
 			}
-		case k != e.sess && st == "entry":
+		case k != e.sess && e.why[k] == "ring":
 			// KF-C10-4: the entry of a keyspace other than the session keyspace is not recomputed when the ring is
-			g.do(fmt.Sprintf("xprepl %d %s", k, ts), "xprepl/x-otherks-not-recomputed")
-		default:
+			g.do(fmt.Sprintf("xprepl %d %s", k, ts), "xprepl/x-otherks-not-recomputed-on-ring-change/"+st)
+		case e.why[k] == "schema":
 			g.do(fmt.Sprintf("xprepl %d %s", k, ts), "xprepl/x-schema-changed-unnotified/"+who+"/"+st)
+		default:
+			g.do(fmt.Sprintf("xprepl %d %s", k, ts), "xprepl/never-read/"+who+"/"+st)
 		}
 		if e.part == "o" && r.Intn(2) == 0 {
 			g.do(fmt.Sprintf("ppick %d %s", k, ts), "ppick")
